@@ -163,6 +163,9 @@ def _f_vec(fam, p, z):
         s = sum(z[i] * PRIMES[i % len(PRIMES)] for i in range(n))
         v = math.sin(s) * 43758.5453
         return float(_frac(v)) if math.isfinite(v) else float("nan")
+    if fam == "hinge":             # tolerance band: exactly 0 on a whole region, coordinate-weighted outside
+        t = p.get("tol", 1.0)
+        return float(sum((i + 1) * max(0.0, abs(z[i]) - t) if z[i] == z[i] else float("nan") for i in range(n)))
     if fam == "plateau":           # many ties
         q = p.get("q", 2.0)
         return float(sum(math.floor(abs(z[i]) / q) if math.isfinite(z[i]) else float("nan") for i in range(n)))
@@ -189,7 +192,7 @@ def _f_perm(fam, p, perm):
     raise ValueError(fam)
 
 
-VEC_FAMS = ("sphere", "abs", "linear", "rastrigin", "hash", "plateau")
+VEC_FAMS = ("sphere", "abs", "linear", "rastrigin", "hash", "plateau", "hinge")
 PERM_FAMS = ("sq", "assign", "tour")
 
 
@@ -310,6 +313,7 @@ class _MonMixin:
         spec, flat, log = ent
         reason = member(flat, x)
         if os.getpid() != data["pid"]:
+          if data.get("calls_file"):
             rec = {"r": reason}
             if reason is not None or data.get("rec"):
                 rec["a"] = _jsonable(x)
@@ -319,6 +323,7 @@ class _MonMixin:
                 os.write(fd, line)
             finally:
                 os.close(fd)
+          # (no per-run file: a foreign process-pool, e.g. HyperTuner / Multitask trials - nothing to record)
         elif log is not None:
             with log.lock:
                 log.n += 1
